@@ -62,14 +62,17 @@ def perm_runs(rng, oracle, pool, cat, ps, names, roles, pick):
                 t.append(F(nm, data[sigma[i]]))
             else:
                 t.append(D(nm, ch))
-        runs.append(Run(t, cat, ps, 'perm', 'given'))
+        r = Run(t, cat, ps, 'perm', 'given')
+        r.extra['roles'] = {nm: sigma[i] for i, nm in enumerate(names)}
+        r.extra['roleset'] = id(roles)
+        runs.append(r)
     return runs
 
 
 def gen_runs(rng, oracle, pool, tier):
     runs = []
     cats = sorted(oracle.cats)
-    n_random = 60 if tier == 'quick' else 500
+    n_random = 120 if tier == 'quick' else 700
     # 1. every pool content alone in a directory, all patterns of each category (this is also the
     #    check that the oracle = analyze_dir on the file on its own)
     for n, c in pool:
@@ -206,6 +209,7 @@ def report_failures(rep, ctx, hz, oracle, runs, rng):
                       {'kind': 'S', 'input': small.describe(), 'failed_subchecks': small.codes,
                        'listing_order_observed': dc.listing_json(small), 'implementation_output': dc.impl_json(small),
                        'specification_demands_multiset': dc.expected_py(small, oracle),
+                       'specification_demands_note': '[pattern, path of the file, lines]; the result records the file NAME (last path component)',
                        'theorem': 'analyze_dir_union (coq/props/C03.v)', 'n_failing_runs': len(spec),
                        'original_run': r0.describe() if dc.tree_entries(r0.tree) <= 12 else '(%d entries)' % dc.tree_entries(r0.tree),
                        'model_function': 'Dir.analyze_dir', 'rust_function': 'analyzer::%s::analyze_dir' % small.cat})
@@ -229,15 +233,16 @@ def run(rep, ctx):
         oracle = dc.Oracle(hz)
         pool = dc.source_pool(rng)
         oracle.ensure([c for n, c in pool])
-        if oracle.fileno_dependent:
-            rep.violation('analyze_for_* result depends on the file number (the model drops it)',
-                          {'kind': 'M', 'cases': oracle.fileno_dependent[:5], 'model_function': 'Dir.analyze_dir (argument i dropped)',
-                           'rust_function': 'analyze_for_*'}, no_input=True)
         runs = gen_runs(rng, oracle, pool, ctx.tier)
         log('runs generated:', len(runs))
         dc.evaluate(hz, oracle, runs, rng, 'c03')
         log('evaluated')
         found = report_failures(rep, ctx, hz, oracle, runs, rng)
+        if oracle.fileno_dependent and not found:
+            # no run contradicted the specification, but the model's dropping of the file number is unjustified
+            rep.violation('analyze_for_* result depends on the file number (the model drops it)',
+                          {'kind': 'M', 'cases': oracle.fileno_dependent[:5], 'model_function': 'Dir.analyze_dir (argument i dropped)',
+                           'rust_function': 'analyze_for_*'}, no_input=True)
         nbin, binfails = binary_runs(rep, ctx, hz, oracle, pool, rng, 2 if ctx.tier == 'quick' else 6)
         if binfails and not found:
             found = True
@@ -254,7 +259,7 @@ def run(rep, ctx):
         perm_orders = set()
         for r in runs:
             if r.tag == 'perm':
-                perm_orders.add((tuple(n for k, n in r.listing[b'']), r.cat, len(r.listing[b''])))
+                perm_orders.add((r.extra['roleset'], r.cat, tuple(r.extra['roles'][n.decode()] for k, n in r.listing[b''])))
         by_tag = {}
         for r in runs:
             by_tag[r.tag] = by_tag.get(r.tag, 0) + 1
@@ -273,7 +278,7 @@ def run(rep, ctx):
         rep.coverage['expected_triples_total'] = sum(r.stats[2] for r in runs)
         rep.coverage['max_depth'] = max(dc.tree_depth(r.tree) for r in runs)
         rep.coverage['max_entries'] = max(dc.tree_entries(r.tree) for r in runs)
-        rep.coverage['distinct_listing_orders_in_permutation_runs'] = len(perm_orders)
+        rep.coverage['distinct_role_interleavings_listed_in_permutation_runs'] = len(perm_orders)
         rep.coverage['traces_validated_against_impl'] = len(ok)
         rep.coverage['pool'] = {'sources': len(pool), 'patterns_with_findings_in_>=2_sources': sum(
             1 for cat in oracle.cats for p in oracle.names(cat) if sum(1 for n, c in pool if oracle.lines(c, cat, p) not in (None, 'PANIC', [])) >= 2)}
